@@ -713,26 +713,29 @@ class TypedTree(Tree):
         # (key_map is evaluated in base class from TypedTree.DEFAULT_KEY_MAP)
 
         # print("value_map    ", value_map)
-        if value_map is True or isinstance(value_map, dict):
-            if value_map is True:
-                value_map = self.DEFAULT_VALUE_MAP.copy()
+        # Hold the (re-entrant) lock while collecting the kinds *and* while the
+        # base class writes the nodes, so both see the same snapshot.
+        with self:
+            if value_map is True or isinstance(value_map, dict):
+                if value_map is True:
+                    value_map = self.DEFAULT_VALUE_MAP.copy()
 
-            if "kind" not in value_map:
-                counter = Counter()
-                for n in self:
-                    counter[n.kind] += 1
-                value_map.update({"kind": list(counter.keys())})
-                # print("value_map -> ", value_map)
-        else:
-            assert value_map is False, value_map
+                if "kind" not in value_map:
+                    counter = Counter()
+                    for n in self:
+                        counter[n.kind] += 1
+                    value_map.update({"kind": list(counter.keys())})
+                    # print("value_map -> ", value_map)
+            else:
+                assert value_map is False, value_map
 
-        return super().save(
-            target,
-            mapper=mapper,
-            meta=meta,
-            key_map=key_map,
-            value_map=value_map,
-        )
+            return super().save(
+                target,
+                mapper=mapper,
+                meta=meta,
+                key_map=key_map,
+                value_map=value_map,
+            )
 
     @classmethod
     def _from_list(
